@@ -69,6 +69,13 @@ def make_registry(scn, proj: Path, delays=None):
                             out.append(ln if spec["report_only"] else ln.replace(spec["from"], spec["to"]))
                         else:
                             out.append(ln)
+                    if rel in spec["raise_paths"] and spec.get("raise_codegen") and touched:
+                        # the transformer hands back a tree from which no code can be generated
+                        class Boom(cst.SimpleStatementLine):
+                            def _codegen_impl(self, state, **kwargs):
+                                raise TypeError("synthetic code generation failure")
+                        good = cst.parse_module("".join(out))
+                        return good.with_changes(body=[Boom(body=[cst.Pass()]), *good.body])
                     if rel in spec["raise_paths"]:
                         # the transformer fails part-way, after it already recorded changes for earlier nodes
                         raise RuntimeError("synthetic transformer failure (late)")
@@ -239,8 +246,10 @@ def gen_scenario(rng, *, n_codemods=None, faults=False, deps=True, kinds=("none"
                     fs = [{"id": f"F{i}-{f}-{j}", "rule": f"rule{i}", "line": rng.randint(1, max(1, nl))} for j in range(rng.randint(1, 2))]
                     spec["sast"].append({"path": f, "findings": fs})
         if faults and rng.random() < 0.5:
-            spec["raise_paths"] = [rng.choice([f for f, _ in world])]
-            spec["raise_late"] = rng.random() < 0.5
+            hits = [f for f, c in world if f.endswith(".py") and frm in c]
+            spec["raise_paths"] = [rng.choice(hits if hits and rng.random() < 0.7 else [f for f, _ in world])]
+            spec["raise_late"] = rng.random() < 0.6
+            spec["raise_codegen"] = spec["raise_late"] and rng.random() < 0.5
         codemods.append(spec)
     scn = {"world": world, "codemods": codemods, "stores": stores, "unparsable": [], "dry": rng.random() < 0.25,
            "path_include": [], "path_exclude": []}
